@@ -109,6 +109,43 @@ func errorHandled(f *ssa.Function, errVal ssa.Value) (bool, string) {
 				// a nil return is acceptable only behind an explicit classification of this error (true edge of
 				// errors.Is / errors.As / IsErr…(err)): a deliberate "not an error" case
 				classified := classificationEdges(f, errVal)
+				// `if err == nil { err = next() }; if err != nil { return err }`: the second test sits in the block the
+				// error edge leads to and tests a phi that is this very error along that edge - its nil outcome cannot
+				// be taken by a path that came in over the error edge
+				if tIf := engine.IfOf(tgt); tIf != nil {
+					if cond, neg := engine.StripNot(tIf.Cond); cond != nil {
+						if bo, isBo := cond.(*ssa.BinOp); isBo && (bo.Op == token.NEQ || bo.Op == token.EQL) {
+							var phi *ssa.Phi
+							if p, isPhi := bo.X.(*ssa.Phi); isPhi && engine.IsNilConst(bo.Y) {
+								phi = p
+							} else if p, isPhi := bo.Y.(*ssa.Phi); isPhi && engine.IsNilConst(bo.X) {
+								phi = p
+							}
+							if phi != nil && phi.Block() == tgt {
+								same := false
+								for i, pred := range tgt.Preds {
+									if pred == iff.Block() && i < len(phi.Edges) && phi.Edges[i] == errVal {
+										same = true
+									}
+								}
+								if same {
+									nilIx := 1
+									if bo.Op == token.EQL {
+										nilIx = 0
+									}
+									if neg {
+										nilIx = 1 - nilIx
+									}
+									withInf := map[engine.Edge]bool{engine.Edge{From: tgt, Succ: nilIx}: true}
+									for e := range classified {
+										withInf[e] = true
+									}
+									classified = withInf
+								}
+							}
+						}
+					}
+				}
 				for _, ret := range engine.Returns(f) {
 					lr := engine.LastResult(ret)
 					if lr != nil && !engine.IsNilConst(lr) {
